@@ -70,6 +70,15 @@ BigCloneOK(e) == e.dA = 0 /\ e.dR = 0 /\ e.eq /\ (e.len > 16 => e.sameptr) /\ e.
 \* one public call on a large string, compared with String by the harness
 BigOpOK(e) == e.teq /\ e.len2 = e.explen /\ e.cap2 >= e.len2 /\ e.resok
 NoMoveOK(e) == e.fits => (e.dA + e.dR = 0 /\ e.sameptr)
+\* shrink_to(m) / shrink_to_fit on a buffer with (kilobytes of) spare room, sole owner or shared: C13's postcondition
+ShrinkOK(e) == LET t == Max(e.len, e.m) IN
+   /\ e.ok /\ e.teq /\ e.others /\ e.cap2 >= e.len /\ e.cap2 <= Max(e.cap1, 16)
+   /\ (e.cap1 > t => IF t <= 16 THEN ~e.heap2 ELSE (e.heap2 /\ e.cap2 = t))
+   /\ (e.cap1 <= t => e.cap2 = e.cap1)
+\* a size no allocator can satisfy, on a target of a page or more: refused cleanly, nothing changed; as an iterator's
+\* lower bound it is only a hint: the extend still succeeds
+BigSizeOK(e) == IF e.hint THEN e.cls = "ok" /\ e.teq /\ e.others /\ e.capok
+                ELSE e.cls = "err" /\ e.teq /\ e.same /\ e.others /\ e.capok
 
 Bad(e) ==
   CASE e.k = "int"   -> {n \in {"IntText", "IntStorage", "IntStd"} :
@@ -88,6 +97,8 @@ Bad(e) ==
     [] e.k = "loop"  -> {n \in {"LoopOK"} : ~LoopOK(e)}
     [] e.k = "bigclone" -> {n \in {"BigCloneOK"} : ~BigCloneOK(e)}
     [] e.k = "bigop" -> {n \in {"BigOpOK", "NoMoveOK"} : IF n = "BigOpOK" THEN ~BigOpOK(e) ELSE ~NoMoveOK(e)}
+    [] e.k = "shrink" -> {n \in {"ShrinkOK"} : ~ShrinkOK(e)}
+    [] e.k = "bigsize" -> {n \in {"BigSizeOK"} : ~BigSizeOK(e)}
     [] OTHER -> {}
 \* the oracle itself: std must agree with the specification (else the specification is wrong)
 SpecBad(e) ==
